@@ -39,7 +39,7 @@ def gen(rng, tier, shape=None):
     fmt = rng.choice(["black", "black", "cat"])
     # an independent random literal for the lexer model
     lit = rand_literal(rng)
-    return {"kind": kind, "cps": cps, "nest": nest, "fmt": fmt, "lit": lit}
+    return {"kind": kind, "cps": cps, "nest": nest, "fmt": fmt, "lit": lit, "mode": rng.choice(["create", "create", "fix"])}
 
 
 def rand_literal(rng):
@@ -69,7 +69,12 @@ def program(case):
     v = case["cps"]
     mk = f"bytes({v!r})" if case["kind"] == "bytes" else f"''.join(map(chr, {v!r}))"
     wrap = {"top": "S", "list": "[1, S, 'x']", "dict": "{'k': S, 2: [S]}", "tuple1": "(S,)"}[case["nest"]]
-    return (f"from inline_snapshot import snapshot\nS = {mk}\n\ndef test_a():\n    assert {wrap} == snapshot()\n")
+    arg = ""
+    if case.get("mode") == "fix":
+        # an existing snapshot whose string leaves are replaced (ValueAdapter path, not the insert path)
+        o = 'b"old"' if case["kind"] == "bytes" else '"old"'
+        arg = {"top": o, "list": f"[1, {o}, 'x']", "dict": "{'k': %s, 2: [%s]}" % (o, o), "tuple1": f"({o},)"}[case["nest"]]
+    return (f"from inline_snapshot import snapshot\nS = {mk}\n\ndef test_a():\n    assert {wrap} == snapshot({arg})\n")
 
 
 def model_lines(case):
@@ -113,7 +118,8 @@ def run_impl(case):
         obs["lit_single"] = len(toks) == 1 and toks[0].string == lit
     except BaseException:  # noqa: BLE001
         obs["lit_single"] = obs["lit_val"] is None
-    r = impl_inline.run_program({"test_case.py": program(case)}, ["create"], ["create"],
+    fl = ["fix"] if case.get("mode") == "fix" else ["create"]
+    r = impl_inline.run_program({"test_case.py": program(case)}, fl, fl,
                                 format_command=("cat" if case["fmt"] == "cat" else None))
     after = r["files_after"].get("test_case.py", "")
     obs["after"] = after
@@ -172,11 +178,11 @@ def nontrivial(case, obs):
 
 
 def signature(case):
-    return common.sha(repr((case["kind"], case["cps"], case["nest"], case["fmt"])))
+    return common.sha(repr((case["kind"], case["cps"], case["nest"], case["fmt"], case.get("mode"))))
 
 
 def histogram(case, obs, hist):
-    for k in ("kind", "nest", "fmt"):
+    for k in ("kind", "nest", "fmt", "mode"):
         hist[f"{k}:{case[k]}"] = hist.get(f"{k}:{case[k]}", 0) + 1
     t = obs.get("token") or []
     style = "triple" if t[:3] in ([34] * 3, [39] * 3) else "single"
